@@ -23,7 +23,15 @@ def unique_harness(ctx, cfg):
     ctx.allow_realise = cfg.get("max_label") is not None
     multiseg = cfg.get("multiseg", False)
     dt = np.dtype(cfg.get("dtype", "int32"))
-    a = SArr.fresh("s", shape, dt)
+    layout = cfg.get("layout")
+    if layout == "moveaxis01":
+        # the caller's array is a transposed VIEW (e.g. np.moveaxis of a time-major stack): not C-contiguous
+        a = SArr(np.moveaxis(SArr.fresh("s", (shape[1], shape[0]) + shape[2:], dt).c, 0, 1), dt)
+    elif layout == "F":
+        a = SArr(np.asfortranarray(SArr.fresh("s", shape, dt).c), dt)
+    else:
+        a = SArr.fresh("s", shape, dt)
+    assert a.c.shape == shape
     inp = a.c.copy()
     for x in inp.flat:
         ctx.add(x >= 0)
@@ -34,6 +42,7 @@ def unique_harness(ctx, cfg):
     ctx.input("shape", list(shape))
     ctx.input("multiseg", multiseg)
     ctx.input("dtype", dt.name)
+    ctx.input("layout", layout)
     ctx.env.update(cells=inp)
     try:
         out = su.ensure_unique_labels(a, multiseg=multiseg)
@@ -70,6 +79,10 @@ def unique_replay(f):
     inp = f["inputs"]
     shape = tuple(inp["shape"])
     arr = np.array(inp["cells"], dtype=np.dtype(inp.get("dtype", "int64"))).reshape(shape)
+    if inp.get("layout") == "moveaxis01":
+        arr = np.moveaxis(np.ascontiguousarray(np.moveaxis(arr, 1, 0)), 0, 1)
+    elif inp.get("layout") == "F":
+        arr = np.asfortranarray(arr)
     before = arr.copy()
     try:
         out = su_real().ensure_unique_labels(arr, multiseg=inp["multiseg"])
